@@ -569,6 +569,24 @@ func bin(op Op, a, b *Term) *Term {
 			}
 		}
 	}
+	if op == OAdd {
+		// x + (y - x) = y
+		if b.Op == OSub && b.Args[1] == a {
+			return b.Args[0]
+		}
+		if a.Op == OSub && a.Args[1] == b {
+			return a.Args[0]
+		}
+	}
+	if op == OSub && a.Op == OAdd {
+		// (x + y) - x = y
+		if a.Args[0] == b {
+			return a.Args[1]
+		}
+		if a.Args[1] == b {
+			return a.Args[0]
+		}
+	}
 	if a == b {
 		switch op {
 		case OBAnd, OBOr:
